@@ -14,12 +14,12 @@ ANCHORS = ["src/pylife/materiallaws/rambgood.py", "src/pylife/materiallaws/hooke
 SHARDS = {"quick": 4, "thorough": 16}
 WATCHDOG = {"quick": 900, "thorough": 3000}
 SOAK = {"thorough": ['tests/materiallaws', 'tests/strength/fkm_nonlinear']}      # contract soak (pv/contracts_more.py) under the repository's own tests
-REQUIRED_CLASSES = {t: ["ro:n<0.08", "ro:n>0.3", "ro:n>0.5", "ro:zero_in_array", "ro:strain>0.02", "ro:elastic", "ro:negative", "ro:scalar", "ro:array", "ro:fixed_scalar_probes", "ro:2d_arrays_C_and_F_order",
-                        "hooke:nu<0", "hooke:nu>0.45", "hooke:1d", "hooke:plane_stress", "hooke:plane_strain", "hooke:3d", "true:negative"]
+REQUIRED_CLASSES = {t: ["ro:n<0.08", "ro:n>0.3", "ro:n>0.5", "ro:zero_in_array", "ro:strain>0.02", "ro:elastic", "ro:negative", "ro:scalar", "ro:array", "ro:fixed_scalar_probes", "ro:2d_arrays_C_and_F_order", "ro:integer_typed_stress",
+                        "hooke:nu<0", "hooke:nu>0.45", "hooke:1d", "hooke:plane_stress", "hooke:plane_strain", "hooke:3d", "true:negative", "true:small_strains"]
                     for t in ("quick", "thorough")}
 REQUIRED_MONITORS = ["ro:strain==formula", "ro:stress(strain(s))==s", "ro:strain(stress(e))==e", "ro:odd", "ro:strictly_increasing",
                      "ro:compliance==d_strain/d_stress", "ro:modulus==1/compliance", "ro:masing==2f(x/2)",
-                     "ro:delta_stress(delta_strain(x))==x", "ro:lower_hysteresis_meets_curve", "ro:scalar_probes==formula", "ro:2d_arrays_elementwise", "hooke:stress(strain(s))==s",
+                     "ro:delta_stress(delta_strain(x))==x", "ro:lower_hysteresis_meets_curve", "ro:scalar_probes==formula", "ro:2d_arrays_elementwise", "ro:integer_arguments==float_arguments", "hooke:stress(strain(s))==s",
                      "hooke:plane_strain==3d(e33=0)", "hooke:plane_stress==3d(s33=0)", "hooke:G_and_K", "true_stress_strain"]
 RULE = ("seeded Ramberg-Osgood sets (E 50e3..250e3, K 200..4000, n 0.04..0.45) with arguments generated through the strain "
         "(|eps| <= 0.1: physically meaningful), scalar and array; Hooke sets (E, -1 < nu < 0.5) with random stress/strain states; "
@@ -168,6 +168,19 @@ def _ro(case, ctx, rng):
             if not _close(got, exp, 1e-12, 1e-300):
                 ok, bad = False, {"argument": sp, "type": conv.__name__, "got": got, "expected": exp}
     ctx.check("ro:scalar_probes==formula", ok, observed=bad, detail={"E": E, "K": K, "n": n})
+    # stresses given as integers (python int, numpy integer arrays and scalars, lists of ints): the same answers as for floats
+    ctx.tag("ro:integer_typed_stress")
+    ok, bad = True, None
+    for arg in (300, np.int64(120), np.array([50, 200, -125], dtype=np.int32), np.array([50, 200, -125], dtype=np.int64)):
+        fl = np.asarray(arg, dtype=float)
+        for fname in ("strain", "tangential_compliance", "tangential_modulus", "plastic_strain"):
+            f_ = getattr(ro, fname, None)
+            if f_ is None:
+                continue
+            gi, gf = np.asarray(f_(arg), dtype=float), np.asarray(f_(fl), dtype=float)
+            if not (gi.shape == gf.shape and _close(gi, gf, 1e-13, 1e-300)):
+                ok, bad = False, {"function": fname, "argument": np.asarray(arg).tolist(), "dtype": str(np.asarray(arg).dtype), "integer": gi, "float": gf}
+    ctx.check("ro:integer_arguments==float_arguments", ok, observed=bad, detail={"E": E, "K": K, "n": n})
     # scalar path
     ctx.tag("ro:scalar")
     e0 = float(eps_signed[len(eps) // 2])
@@ -235,6 +248,12 @@ def _true(case, ctx, rng):
     fs = np.asarray(T.true_fracture_strain(Z), dtype=float)
     ok = ok and _close(1 - np.exp(-fs), Z, 1e-12) and _close(np.asarray(T.true_fracture_stress(1000.0, 10.0, Z)), 100.0 / (1 - Z), 1e-13)
     ctx.check("true_stress_strain", ok, observed={"true_strain": tr_e, "true_stress": tr_s})
+    # small strains (elastic range, micro-strain): "exact inverse" is a statement about relative accuracy there
+    ctx.tag("true:small_strains")
+    sm = 10 ** rng.uniform(-14, -3, 6) * rng.choice([-1.0, 1.0], 6)
+    tsm = np.asarray(T.true_strain(sm), dtype=float)
+    ctx.check("true_stress_strain", _close(np.expm1(tsm), sm, 1e-13) and _close(tsm, np.log1p(sm), 1e-13), observed=tsm, expected=np.log1p(sm),
+              tags=["c16_true_strain_log_of_one_plus_x"], detail="small strains, relative")
 
 
 def run_case(case, ctx):
